@@ -83,8 +83,29 @@ func (b c05Base) sender() crypto.Cipher {
 }
 
 // tryDecrypt runs both entry points and demands agreement between them.
-func tryDecrypt(t *rapid.T, c crypto.Cipher, k crypto.AuthKey, wire []byte) (*crypto.EncryptedMessageData, error) {
+// With prior given, a third path decodes wire into an EncryptedMessage value
+// that was used for prior before (receiver objects are reused between frames;
+// Decode documents no fresh-value precondition): what the previous frame left
+// behind must not become part of this one.
+func tryDecrypt(t *rapid.T, c crypto.Cipher, k crypto.AuthKey, wire []byte, prior ...[]byte) (*crypto.EncryptedMessageData, error) {
 	m1, err1 := c.DecryptFromBuffer(k, &bin.Buffer{Buf: append([]byte(nil), wire...)})
+	for _, p := range prior {
+		var em crypto.EncryptedMessage
+		if err := em.Decode(&bin.Buffer{Buf: append([]byte(nil), p...)}); err != nil {
+			t.Fatalf("Decode of the valid frame: %v", err)
+		}
+		var m3 *crypto.EncryptedMessageData
+		err3 := em.Decode(&bin.Buffer{Buf: append([]byte(nil), wire...)})
+		if err3 == nil {
+			m3, err3 = c.Decrypt(k, &em)
+		}
+		if (err1 == nil) != (err3 == nil) {
+			t.Fatalf("DecryptFromBuffer err=%v but Decode into a reused EncryptedMessage + Decrypt err=%v", err1, err3)
+		}
+		if err3 != nil && m3 != nil {
+			t.Fatalf("Decrypt returned an error AND a message: %v", err3)
+		}
+	}
 	var em crypto.EncryptedMessage
 	var m2 *crypto.EncryptedMessageData
 	err2 := em.Decode(&bin.Buffer{Buf: append([]byte(nil), wire...)})
@@ -235,7 +256,7 @@ func TestC05(t *testing.T) {
 			st.Case("identity", false, nil, "identity:"+mut.Name)
 			return
 		}
-		got, err := tryDecrypt(t, mut.Cipher, mut.Key, mut.Wire)
+		got, err := tryDecrypt(t, mut.Cipher, mut.Key, mut.Wire, b.Wire)
 		if err == nil {
 			t.Fatalf("mutation %s accepted: wire %d bytes (orig %d), producer %s, fromServer=%v; got msgID=%d len=%d",
 				mut.Name, len(mut.Wire), len(b.Wire), b.Producer, b.FromServer, got.MessageID, got.MessageDataLen)
